@@ -6,7 +6,9 @@ Model: SophiaModel/Model/Iso.lean (`iso deep sort h fuel D₁ D₂`, a transcrip
   `deep`  which `IsoTerm` equality/order /repo has (regenerated: `Gen.IsoVariant.deep`);
   `sort`  `sort_unstable`, constrained by `SortSpec` (permutation; sorted if the comparator is a total preorder);
   `h`     the hash (`DefaultHasher`) as an arbitrary function of what is fed to it;
-  `fuel`  bound on the rounds of the refinement loop (`none` = exhausted; termination is not claimed).
+  `fuel`  bound on the rounds of the refinement loop (`none` = exhausted).  Termination: proved when the class
+          counts never decrease (`iso_relabel_total_partial`, bound 2n+1); refuted for arbitrary hash functions
+          (`refine_diverges`, `iso_relabel_total_fails`).
 
 Headline for the code as it is: `repo_variant` (the regenerated flag is the recursive variant — a regression of
 iso_term.rs to the top-level-only comparison makes this obligation fail), `iso_relabel_repo`, and the two
@@ -14,6 +16,7 @@ oracle theorems `certOk_sound` / `groundDiffers_sound`, which state the clauses 
 (Model/IsoOracle.lean) from which the differential driver derives `o.iso=1` / `o.iso=0`.
 -/
 import SophiaProofs.Lemmas.IsoColour
+import SophiaProofs.Lemmas.IsoTermination
 import SophiaModel.Gen.IsoVariant
 import SophiaModel.Model.IsoOracle
 import Mathlib.Data.List.Dedup
@@ -471,6 +474,199 @@ theorem iso_relabel_fails_shallow : ¬ IsoRelabel false := by
   rw [witness_gates] at this
   exact absurd this.1 (by simp)
 
+/-! ### total correctness: "answers true" -/
+
+/-- The first clause of the property at full strength: on a relabelled, reordered copy the call *returns* `true`
+(for some number of rounds), whatever the sort and the hash function. -/
+def IsoRelabelTotal (deep : Bool) : Prop :=
+  ∀ (sort : List Quad → List Quad), SortSpec (quadCmp deep) sort → ∀ (h : List Ev → UInt64)
+    (β : Str → Str) (D1 D2 : List Quad), (∀ q ∈ D1, WFq q) → Relabelled β D1 D2 →
+    ∃ fuel, iso deep sort h fuel D1 D2 = some true
+
+theorem iso_relabel_total_gen (deep : Bool) (sort : List Quad → List Quad) (hs : SortSpec (quadCmp deep) sort)
+    (h : List Ev → UInt64) (fuel : Nat) (β : Str → Str) (D1 D2 : List Quad) (hwf : ∀ q ∈ D1, WFq q)
+    (R : Relabelled β D1 D2) (hinv : BlankInv deep β D1)
+    (hm : monoRun h (sort D1) (makeB2q (sort D1)) fuel (initMap (makeB2q (sort D1))) 0 = true)
+    (hf : 2 * bnodeCount D1 < fuel) : iso deep sort h fuel D1 D2 = some true := by
+  have hg := gates_relabel_gen deep sort hs β D1 D2 hwf R hinv
+  have hne := iso_relabel_gen deep sort hs h fuel β D1 D2 hwf R hinv
+  rw [iso_of_gates _ _ _ _ _ _ hg] at hne ⊢
+  have R' : Relabelled β (sort D1) (sort D2) := by
+    refine ⟨?_, ((hs.perm D2).trans R.perm).trans ((hs.perm D1).map _).symm⟩
+    intro a ha b hb
+    exact R.inj a (((hs.perm D1).flatMap_right quadBnodes).mem_iff.1 ha) b (((hs.perm D1).flatMap_right quadBnodes).mem_iff.1 hb)
+  have hm2 := R'.monoRun_transfer h fuel _ _ 0 (keys_initMap _) (keys_initMap _) (fun c hc => R'.colour_init c hc) hm
+  have l1 := b2q_length sort hs.perm D1
+  have l2 : (makeB2q (sort D2)).length = bnodeCount D1 := by
+    simp only [gates, Bool.and_eq_true, bcountGate, beq_iff_eq] at hg
+    rw [← hg.2, l1]
+  obtain ⟨b, hb⟩ := refine_terminates h (sort D1) (sort D2) _ _ fuel _ _ 0 0 hm hm2 (Nat.zero_le _) (Nat.zero_le _)
+    (by rw [l1, l2]; omega)
+  rw [hb] at hne ⊢
+  cases b
+  · exact absurd rfl hne
+  · rfl
+
+/-- **"Answers true" as a theorem** for the `IsoTerm` variant /repo has: a dataset compared with a copy whose
+blank nodes are renamed by an injective map (anywhere) and whose statements are reordered is answered `true`
+within `2·(number of blank nodes) + 1` rounds — provided the number of colour classes of the first argument never
+decreases from one round to the next (`monoRun`, an executable test the driver evaluates on every request).
+What is missing for `IsoRelabelTotal`: that proviso, which no property of an *arbitrary* hash function can
+supply (`iso_relabel_total_fails`); for SipHash it is an empirical fact of the run. -/
+theorem iso_relabel_total_partial (sort : List Quad → List Quad) (hs : SortSpec (quadCmp Gen.IsoVariant.deep) sort)
+    (h : List Ev → UInt64) (fuel : Nat) (β : Str → Str) (D1 D2 : List Quad) (hwf : ∀ q ∈ D1, WFq q)
+    (R : Relabelled β D1 D2)
+    (hm : monoRun h (sort D1) (makeB2q (sort D1)) fuel (initMap (makeB2q (sort D1))) 0 = true)
+    (hf : 2 * bnodeCount D1 < fuel) : iso Gen.IsoVariant.deep sort h fuel D1 D2 = some true := by
+  have hinv : BlankInv Gen.IsoVariant.deep β D1 := by rw [repo_variant]; exact blankInv_deep β D1
+  exact iso_relabel_total_gen _ sort hs h fuel β D1 D2 hwf R hinv hm hf
+
+/-! ### "held in a different container" -/
+
+/-- what `prepare_dataset` sees of a container: some enumeration of its statements, each once, in the container's
+own order (`Vec`: insertion order; `HashSet`/`BTreeSet`/`FastDataset`/…: hash, tree or index order).  This is the
+whole container contract the isomorphism test relies on; the harness checks it on every request
+(`skip=container_content_differs` otherwise). -/
+def Enumerates (enum : List Quad → List Quad) : Prop := ∀ D, (enum D).Perm D
+
+theorem Relabelled.of_perm {β : Str → Str} {D1 D2 E1 E2 : List Quad} (R : Relabelled β D1 D2)
+    (p1 : E1.Perm D1) (p2 : E2.Perm D2) : Relabelled β E1 E2 := by
+  refine ⟨?_, (p2.trans R.perm).trans (p1.map _).symm⟩
+  intro a ha b hb
+  exact R.inj a ((p1.flatMap_right quadBnodes).mem_iff.1 ha) b ((p1.flatMap_right quadBnodes).mem_iff.1 hb)
+
+/-- the first clause with the containers made explicit: whatever the two containers' iteration orders, a
+relabelled copy passes the gates, is never answered `false`, and — under the class-count proviso — is answered
+`true` within `2n+1` rounds -/
+theorem iso_relabel_any_container (enum1 enum2 : List Quad → List Quad) (he1 : Enumerates enum1) (he2 : Enumerates enum2)
+    (sort : List Quad → List Quad) (hs : SortSpec (quadCmp Gen.IsoVariant.deep) sort) (h : List Ev → UInt64)
+    (fuel : Nat) (β : Str → Str) (D1 D2 : List Quad) (hwf : ∀ q ∈ D1, WFq q) (R : Relabelled β D1 D2) :
+    gates Gen.IsoVariant.deep sort (enum1 D1) (enum2 D2) = true ∧
+    iso Gen.IsoVariant.deep sort h fuel (enum1 D1) (enum2 D2) ≠ some false ∧
+    (monoRun h (sort (enum1 D1)) (makeB2q (sort (enum1 D1))) fuel (initMap (makeB2q (sort (enum1 D1)))) 0 = true →
+      2 * bnodeCount D1 < fuel → iso Gen.IsoVariant.deep sort h fuel (enum1 D1) (enum2 D2) = some true) := by
+  have R' := Relabelled.of_perm R (he1 D1) (he2 D2)
+  have hwf' : ∀ q ∈ enum1 D1, WFq q := fun q hq => hwf q ((he1 D1).subset hq)
+  obtain ⟨hg, hne⟩ := iso_relabel_repo sort hs h fuel β _ _ hwf' R'
+  refine ⟨hg, hne, fun hm hf => ?_⟩
+  refine iso_relabel_total_partial sort hs h fuel β _ _ hwf' R' hm ?_
+  have : bnodeCount (enum1 D1) = bnodeCount D1 := by
+    simp only [bnodeCount]
+    apply List.Perm.length_eq
+    exact (((he1 D1).flatMap_right quadBnodes)).dedup
+  omega
+
+example : Enumerates id ∧ Enumerates List.reverse ∧ Enumerates (isort true) :=
+  ⟨fun _ => List.Perm.refl _, fun D => List.reverse_perm D, isort_perm true⟩
+
+/-! ### fallible containers -/
+
+/-- an answer is given exactly when neither traversal fails, and then it is the answer of `iso`: every theorem
+above transfers to `isomorphic_datasets` on fallible containers that do not fail -/
+theorem isoE_answer_iff (deep : Bool) (sort : List Quad → List Quad) (h : List Ev → UInt64) (fuel : Nat)
+    (f1 f2 : Option Nat) (D1 D2 : List Quad) (r : Option Bool) :
+    isoE deep sort h fuel f1 f2 D1 D2 = .answer r ↔
+      fails f1 D1 = false ∧ fails f2 D2 = false ∧ r = iso deep sort h fuel D1 D2 := by
+  simp only [isoE]
+  cases fails f1 D1 <;> cases fails f2 D2 <;> simp [eq_comm]
+
+/-- a failing first argument is reported as `SourceError` whatever the second does; a failing second argument as
+`SinkError` only if the first one was traversed completely -/
+theorem isoE_error_iff (deep : Bool) (sort : List Quad → List Quad) (h : List Ev → UInt64) (fuel : Nat)
+    (f1 f2 : Option Nat) (D1 D2 : List Quad) :
+    (isoE deep sort h fuel f1 f2 D1 D2 = .sourceError ↔ fails f1 D1 = true) ∧
+    (isoE deep sort h fuel f1 f2 D1 D2 = .sinkError ↔ fails f1 D1 = false ∧ fails f2 D2 = true) := by
+  simp only [isoE]
+  cases fails f1 D1 <;> cases fails f2 D2 <;> simp
+
+/-- symmetry extends to fallible containers: exchanging the arguments exchanges `SourceError` and `SinkError`
+(when only one side fails) and leaves an answer unchanged -/
+theorem isoE_symm (deep : Bool) (sort : List Quad → List Quad) (h : List Ev → UInt64) (fuel : Nat)
+    (f1 f2 : Option Nat) (D1 D2 : List Quad) (hx : (fails f1 D1 && fails f2 D2) = false) :
+    isoE deep sort h fuel f2 f1 D2 D1 =
+      (match isoE deep sort h fuel f1 f2 D1 D2 with
+       | .sourceError => .sinkError
+       | .sinkError => .sourceError
+       | .answer r => .answer r) := by
+  simp only [isoE]
+  cases h1 : fails f1 D1 <;> cases h2 : fails f2 D2 <;> simp [h1, h2] at hx ⊢
+  exact iso_symm deep sort h fuel D2 D1
+
+example : isoE true (isort true) (fun _ => 0) 2 (some 0) (some 0) (witnessD "a") (witnessD "b") = .sourceError ∧
+    isoE true (isort true) (fun _ => 0) 2 (some 1) (some 0) (witnessD "a") (witnessD "b") = .sinkError ∧
+    isoE true (isort true) (fun _ => 0) 2 (some 1) none (witnessD "a") (witnessD "b") = .answer (some true) := by decide
+
+/-! ### the proviso is necessary: an adversarial hash function under which the loop never stops -/
+
+/-- three blank nodes, one statement each; `a` is told apart from `b`, `c` by its predicate only -/
+def divD : List Quad :=
+  [⟨.bnode "a".toList, .iri "x:p".toList, .lit "l".toList "x:d".toList, none⟩,
+   ⟨.bnode "b".toList, .iri "x:q".toList, .lit "l".toList "x:d".toList, none⟩,
+   ⟨.bnode "c".toList, .iri "x:q".toList, .lit "m".toList "x:d".toList, none⟩]
+
+/-- a function of the event trace that looks at the colour fed to it and at the predicate only:
+colour 1 ↦ 5; colour 5 ↦ 6 for `a`, 7 for `b`, `c`; anything else ↦ 5.  The class count then alternates 1, 2, 1, 2, … -/
+def hAdv (evs : List Ev) : UInt64 :=
+  let v := (evs.filterMap (fun e => match e with | .col v => some v | _ => none)).headD 0
+  if v == 1 then 5 else if v == 5 then (if evs.contains (.t (.str "x:p".toList)) then 6 else 7) else 5
+
+def divB : B2Q := makeB2q (isort true divD)
+def divA1 : CMap := makeMap hAdv (isort true divD) divB (initMap divB)
+def divA2 : CMap := makeMap hAdv (isort true divD) divB divA1
+
+theorem div_step1 : makeMap hAdv (isort true divD) divB divA1 = divA2 := rfl
+theorem div_step2 : makeMap hAdv (isort true divD) divB divA2 = divA1 := by decide
+theorem div_len1 : (eqClasses divA1).length = 1 := by decide
+theorem div_len2 : (eqClasses divA2).length = 2 := by decide
+theorem div_mlen1 : divA1.length = 3 := by decide
+theorem div_mlen2 : divA2.length = 3 := by decide
+
+theorem refine_diverges_aux (fuel : Nat) :
+    refine hAdv (isort true divD) (isort true divD) divB divB fuel divA1 divA1 1 1 = none ∧
+    refine hAdv (isort true divD) (isort true divD) divB divB fuel divA2 divA2 2 2 = none := by
+  induction fuel with
+  | zero => exact ⟨rfl, rfl⟩
+  | succ fuel ih =>
+    constructor
+    · simp only [refine, div_step1, div_len2, div_mlen2]
+      simpa using ih.2
+    · simp only [refine, div_step2, div_len1, div_mlen1]
+      simpa using ih.1
+
+/-- kernel-checked non-termination: with `hAdv` for the hash the loop gives no answer at any fuel, on a dataset
+compared with itself -/
+theorem refine_diverges (fuel : Nat) : iso true (isort true) hAdv fuel divD divD = none := by
+  rw [iso_of_gates _ _ _ _ _ _ (by decide : gates true (isort true) divD divD = true)]
+  cases fuel with
+  | zero => rfl
+  | succ fuel =>
+    show refine hAdv (isort true divD) (isort true divD) divB divB (fuel + 1) (initMap divB) (initMap divB) 0 0 = none
+    simp only [refine]
+    have e : makeMap hAdv (isort true divD) divB (initMap divB) = divA1 := rfl
+    simp only [e, div_len1, div_mlen1]
+    simpa using (refine_diverges_aux fuel).1
+
+/-- hence total correctness does not follow from the abstraction "the hasher is some function of what is fed to
+it": the class-count proviso of `iso_relabel_total_partial` (or another property of SipHash's run) is needed -/
+theorem iso_relabel_total_fails : ¬ IsoRelabelTotal Gen.IsoVariant.deep := by
+  rw [repo_variant]
+  intro hall
+  obtain ⟨fuel, hf⟩ := hall (isort true) (isort_spec true) hAdv id divD divD
+    (by intro q hq
+        simp only [divD, List.mem_cons, List.not_mem_nil, or_false] at hq
+        rcases hq with rfl | rfl | rfl <;> exact ⟨by decide, by decide, by decide, by intro g hg; simp at hg⟩)
+    ⟨fun a _ b _ e => e, List.Perm.of_eq (by decide)⟩
+  rw [refine_diverges] at hf
+  exact absurd hf (by simp)
+
+/-- the same for exactly the certificate test of the differential oracle -/
+theorem certOk_answers_true (sort : List Quad → List Quad) (hs : SortSpec (quadCmp Gen.IsoVariant.deep) sort)
+    (h : List Ev → UInt64) (fuel : Nat) (β : List (Str × Str)) (D1 D2 : List Quad) (hwf : D1.all IsoOracle.wfQ = true)
+    (hc : IsoOracle.certOk β D1 D2 = true)
+    (hm : monoRun h (sort D1) (makeB2q (sort D1)) fuel (initMap (makeB2q (sort D1))) 0 = true)
+    (hf : 2 * bnodeCount D1 < fuel) : iso Gen.IsoVariant.deep sort h fuel D1 D2 = some true :=
+  iso_relabel_total_partial sort hs h fuel _ D1 D2 (wfq_of_wfQ D1 hwf) (relabelled_of_certOk β D1 D2 hc) hm hf
+
 /-! ### non-vacuity -/
 
 -- the sort hypothesis is satisfiable: the driver's insertion sort meets it
@@ -519,5 +715,11 @@ example : IsoOracle.groundDiffers
     [⟨.bnode "a".toList, .iri "x:p".toList, .bnode "b".toList, some (.bnode "a".toList)⟩] = true := by decide
 -- `iso_fuel_mono` / `iso_relabel_answers_true` are not vacuous: the loop does answer (here with a constant hash, at fuel 2)
 example : iso true (isort true) (fun _ => 0) 2 (witnessD "a") (witnessD "b") = some true := by decide
+
+-- the proviso is satisfiable (and the bound attained): constant hash, witness pair
+example : monoRun (fun _ => 0) (isort true (witnessD "a")) (makeB2q (isort true (witnessD "a"))) 3
+    (initMap (makeB2q (isort true (witnessD "a")))) 0 = true ∧ 2 * bnodeCount (witnessD "a") < 3 := by decide
+-- and it fails on the divergence witness
+example : monoRun hAdv (isort true divD) divB 3 (initMap divB) 0 = false := by decide
 
 end SophiaProofs.C07
